@@ -25,6 +25,7 @@ type Options struct {
 	Findings string
 	Seed     int
 	ShowModel bool
+	Why       string
 }
 
 func main() {
@@ -45,6 +46,7 @@ func main() {
 	fs.StringVar(&o.Only, "only", "", "restrict to contracts whose key contains this string")
 	fs.BoolVar(&o.Verbose, "v", false, "verbose")
 	fs.BoolVar(&o.ShowModel, "model", false, "print input values of refuted obligations")
+	fs.StringVar(&o.Why, "why", "", "effects: print a call chain to a direct writer of this key")
 	fs.StringVar(&o.Findings, "findings", "/verif/known_findings.txt", "known findings file")
 	fs.Parse(os.Args[2:])
 	if s := os.Getenv("VERIF_SEED"); s != "" {
@@ -61,6 +63,59 @@ func main() {
 		os.Exit(runCheck(&o))
 	case "list":
 		os.Exit(runList(&o))
+	case "effects":
+		w, err := loadAll(&o)
+		if err != nil {
+			fmt.Println("ERROR", err)
+			os.Exit(2)
+		}
+		g := w.graph()
+		for _, n := range g.nodes {
+			if o.Only != "" && !strings.Contains(n.name, o.Only) {
+				continue
+			}
+			var ws, ls, cs []string
+			for k := range n.eff.Writes {
+				ws = append(ws, k)
+			}
+			for k := range n.eff.Locks {
+				ls = append(ls, k)
+			}
+			for c := range n.callees {
+				cs = append(cs, c.name)
+			}
+			sort.Strings(ws)
+			sort.Strings(ls)
+			sort.Strings(cs)
+			if o.Why != "" {
+				// shortest call chain to a direct writer of the key
+				prev := map[*cgNode]*cgNode{n: nil}
+				queue := []*cgNode{n}
+				var hit *cgNode
+				for len(queue) > 0 && hit == nil {
+					x := queue[0]
+					queue = queue[1:]
+					if x.direct.Writes[o.Why] || x.direct.Locks[o.Why] {
+						hit = x
+						break
+					}
+					for c := range x.callees {
+						if _, seen := prev[c]; !seen {
+							prev[c] = x
+							queue = append(queue, c)
+						}
+					}
+				}
+				var chain []string
+				for x := hit; x != nil; x = prev[x] {
+					chain = append([]string{x.name}, chain...)
+				}
+				fmt.Printf("%s reaches %s via: %s\n", n.name, o.Why, strings.Join(chain, " -> "))
+				continue
+			}
+			fmt.Printf("%s\n  writes: %v\n  locks: %v\n  callees: %v\n", n.name, ws, ls, cs)
+		}
+		os.Exit(0)
 	default:
 		fmt.Fprintln(os.Stderr, "unknown command", cmd)
 		os.Exit(2)
@@ -122,6 +177,13 @@ func runCheck(o *Options) int {
 		}
 		switch ct.Kind {
 		case "func":
+			if o.Prop == "C09" {
+				// the lock sweep checks every lock-touching function, contracted or not
+				if w.Funcs[ct.PkgName+"."+ct.Key] == nil {
+					missing = append(missing, ct.PkgName+"."+ct.Key)
+				}
+				continue
+			}
 			fi := w.Funcs[ct.PkgName+"."+ct.Key]
 			if fi == nil {
 				missing = append(missing, ct.PkgName+"."+ct.Key)
